@@ -1,40 +1,36 @@
-import os, time, threading, glob
+import os, time, threading, glob, subprocess, sys
 from . import wproxy, rawhttp
 
 def worker(args, scratch):
-    w = wproxy.World(scratch, runtime="multi:8", log_level="Trace")
-    out = {"bad": [], "n": 0}
+    big = {}
+    def handler(name, req):
+        vid = (req.header("x-vf-id") or b"").decode()
+        if vid.endswith("-0"):
+            return {"status": 200, "body": b"x" * args["size"], "segments": [args["seg"]] * 400 if args.get("seg") else None}
+        return {"status": 200, "body": b"ok"}
+    w = wproxy.World(scratch, runtime="multi:%d" % args["workers"], log_level="Info", handler=handler)
+    out = {"bad": 0, "n": 0}
     try:
         root = w.identity("root", "helper", [])
-        stop = False
-        def burn():
-            while not stop:
-                sum(i*i for i in range(10000))
-        bs = [threading.Thread(target=burn, daemon=True) for _ in range(24)]
-        for b in bs: b.start()
+        lock = threading.Lock()
         def client(ci):
-            for k in range(150):
-                c = w.open("wireserver", root)
-                reqs = [rawhttp.build_request("GET", "/p/%d/%d/%d" % (ci, k, j), [("x-vf-id", "e-%d-%d-%d" % (ci, k, j))]) for j in range(3)]
-                c.send(b"".join(reqs))
-                for j in range(3):
-                    r = c.read_response()
-                    out["n"] += 1
-                    if r.status != 200:
-                        out["bad"].append((ci, k, j, r.status))
+            for k in range(args["conns"]):
+                c = w.open("other", root)
+                for rep in range(4):
+                    reqs = [rawhttp.build_request("GET", "/p/%d/%d/%d" % (ci, k, j), [("x-vf-id", "e-%d-%d-%d-%d" % (ci, k, rep, j))]) for j in range(2)]
+                    c.send(b"".join(reqs))
+                    for j in range(2):
+                        r = c.read_response()
+                        with lock:
+                            out["n"] += 1
+                            if r.status != 200:
+                                out["bad"] += 1
                 c.close()
-        ts = [threading.Thread(target=client, args=(i,)) for i in range(8)]
+        t0 = time.time()
+        ts = [threading.Thread(target=client, args=(i,)) for i in range(args["threads"])]
         for t in ts: t.start()
         for t in ts: t.join()
-        stop = True
-        time.sleep(0.3)
-        logs = []
-        for f in glob.glob("/var/log/azure-proxy-agent/ProxyAgent.Connection*.log"):
-            for line in open(f, errors="replace"):
-                if "Failed to send" in line or "not ready" in line or "errorDetails\":\"F" in line:
-                    logs.append(line.strip()[:400])
-        out["logs"] = logs[:6]
-        out["bad"] = out["bad"][:10]
+        out["dt"] = time.time() - t0
     finally:
         w.close()
     return out
